@@ -1007,8 +1007,10 @@ impl<'store, 'regex> Iterator for FindRegexIter<'store, 'regex> {
             // iterate any buffers than overlap with this result, discarding those matces in the process
             if !self.allow_overlap {
                 for (j, m2) in self.nextmatches.iter_mut().enumerate() {
-                    if j != i && m2.is_some() {
-                        if m2.as_ref().unwrap().begin() >= m.begin()
+                    if j != i {
+                        //(an expression may have several matches inside this result: skip them all)
+                        while m2.is_some()
+                            && m2.as_ref().unwrap().begin() >= m.begin()
                             && m2.as_ref().unwrap().begin() < m.end()
                         {
                             //(note: no need to check whether m2.end in range m.begin-m.end)
